@@ -5,12 +5,23 @@ pub mod phook;
 pub mod expr_ref;
 pub mod exprrun;
 pub mod c10;
+pub mod rec;
+pub mod docgen;
+pub mod refsim;
+pub mod session;
+pub mod legality;
+pub mod structural;
+pub mod c01;
+pub mod c02;
 
 use report::{Args, Report};
 
 pub fn dispatch(cmd: &str, args: &Args, rep: &mut Report) -> bool {
     match cmd {
         "C10" => c10::run(args, rep),
+        "C01" => c01::run(args, rep),
+        "C02" => c02::run(args, rep),
+        "try" => trycmd(args),
         _ => return false,
     }
     true
@@ -18,4 +29,38 @@ pub fn dispatch(cmd: &str, args: &Args, rep: &mut Report) -> bool {
 
 pub fn selftests() -> Vec<(&'static str, Result<(), String>)> {
     vec![("expr_ref", c10::selftest())]
+}
+
+/// debugging aid: `rv try --seed N [dm]` prints one generated document with expected / observed trace
+fn trycmd(args: &Args) {
+    use docgen::*;
+    let mut rng = args.rng(0);
+    let dm = match args.extra.first().map(|s| s.as_str()) {
+        Some("null") => Dm::Null,
+        Some("ecma") => Dm::Ecma,
+        _ => Dm::Rfsm,
+    };
+    let o = GenOpts::structural(dm, false);
+    let (doc, f, path, exp) = loop {
+        let doc = generate(&mut rng, &o, "try");
+        let f = refsim::Flat::from_doc(&doc).unwrap();
+        let path = structural::guided_path(&f, &structural::alphabet(&o), 8, &mut rng);
+        let exp = structural::expected_trace(&f, &path);
+        if !exp.diverged && exp.stats.microsteps > 2 {
+            break (doc, f, path, exp);
+        }
+    };
+    let xml = doc.to_xml();
+    println!("{}", xml);
+    println!("path: {:?} diverged={}", path, exp.diverged);
+    let out = structural::run_real(&xml, &path);
+    println!("status: {:?}", out.res.status);
+    let n = exp.lines.len().max(out.observed.len());
+    for i in 0..n {
+        let e = exp.lines.get(i).cloned().unwrap_or_default();
+        let o = out.observed.get(i).cloned().unwrap_or_default();
+        println!("{:3} {:40} {:40} {}", i, e, o, if e == o { "" } else { "<<<<" });
+    }
+    let mut st = Default::default();
+    println!("legality: {:?}", legality::check(&f, &out.res, &mut st));
 }
